@@ -109,6 +109,9 @@ def cmd_check(prop, tier, jobs):
         print(f"no contracts registered for {prop}")
         return 3
     todo = [i for i, h in enumerate(hs) if h.tier == "quick" or tier == "thorough"]
+    only = os.environ.get("PYVC_ONLY")  # development aid: run the harnesses whose name contains one of these (never used by registered commands)
+    if only:
+        todo = [i for i in todo if any(o in hs[i].name for o in only.split(","))]
     with mp.get_context("fork").Pool(min(jobs, max(1, len(todo)))) as pool:
         results = pool.map(_work, [(prop, i, tier, seed) for i in todo], chunksize=1)
     kf = json.load(open(os.path.join(ROOT, "known_findings.json"))) if os.path.exists(os.path.join(ROOT, "known_findings.json")) else {"findings": []}
